@@ -66,6 +66,35 @@ pub fn one_len<T: Real>(n: usize, planners: &[PK], ks: &[usize], rep: &mut Repor
                         continue;
                     }
                 };
+                // (iii) chunking must not depend on how generous the scratch is: lengths between the advertised one and
+                // the buffer size (a scratch that holds 2 .. k-1 chunks) give the same bits for every chunk
+                if e != Entry::Process && k >= 2 {
+                    let adv = e.scratch_len(f.as_ref());
+                    let mut sls = vec![adv + n, 2 * n + 1, (k - 1) * n + 1, k * n - 1];
+                    sls.retain(|&x| x > adv);
+                    sls.sort();
+                    sls.dedup();
+                    let z = C::new(T::from64(0.0), T::from64(0.0));
+                    for sl in sls {
+                        let oi = if e.has_output() { vec![z; base.len()] } else { vec![] };
+                        let co = call(f.as_ref(), e, &base, &oi, &vec![z; sl]);
+                        rep.evaluations += 1;
+                        rep.transitions += 1;
+                        match co.out {
+                            None => rep.violate(key(*pk, T::NAME, *d, n, e, k, 0, &format!("scratch_len={}", sl), "completes"), format!("{}-chunk call with scratch length {} (advertised {}) panicked: {}", k, sl, adv, co.panic_msg.unwrap_or_default()), Json::Null),
+                            Some(o) => {
+                                if !same_bits(&o, &base_out) {
+                                    let first = o.iter().zip(&base_out).position(|(a, b)| a.re.bits() != b.re.bits() || a.im.bits() != b.im.bits()).unwrap_or(0);
+                                    rep.violate(
+                                        key(*pk, T::NAME, *d, n, e, k, first / n, &format!("scratch_len={}", sl), "same-as-exact-scratch"),
+                                        format!("with a scratch of {} elements (advertised {}) chunk {} of {} is not transformed as with exactly the advertised scratch", sl, adv, first / n, k),
+                                        Json::Null,
+                                    );
+                                }
+                            }
+                        }
+                    }
+                }
                 for p in 0..k {
                     if n >= 2 {
                         rep.distinct_nontrivial += 1;
